@@ -139,6 +139,7 @@ package engine
 // sockOK: what MakeSocket establishes; sockLive: what holds from Construct on (a transport is attached and the
 // heartbeat mode of the session agrees with the protocol revision of its transport).
 //@ spec sockOK(s *socket) bool = s != nil && s.EventEmitter != nil && s.writeBuffer != nil && s.packetsFn != nil && s.sentCallbackFn != nil && s.cleanupFn != nil
+//@ spec hbOK(s *socket) bool = (s.protocol == 3 ==> s.pingTimeoutTimer.v != nil) && (s.protocol != 3 ==> s.pingIntervalTimer.v != nil)
 //@ spec sockLive(s *socket) bool = sockOK(s) && s.server != nil && s.Transport() != nil && iface(s.server) != iface(s.EventEmitter)
 // Thin contracts used at call sites; each function is verified against its own clauses below.
 
@@ -239,9 +240,7 @@ package engine
 //@ func (*socket).onPacket(data)
 //@   props C07, C02, C03
 //@   requires sockLive(s) && data != nil
-//@   requires s.protocol == 3 ==> s.pingTimeoutTimer.v != nil
-//@   requires s.protocol != 3 ==> s.pingIntervalTimer.v != nil
-//@   requires s.protocol == s.Transport().Protocol()
+//@   requires hbOK(s)   // the heartbeat timer of the session's revision exists from onOpen on; the transport's revision is NOT assumed to agree with the session's (a candidate transport may have been upgraded to with another EIO value)
 //@   modifies *
 //@   let open = old(s.ReadyState()) == "open"
 //@   let v3   = old(s.protocol) == 3
